@@ -203,7 +203,12 @@ class C08(Check):
                    "addresses are identified with their derivation path through a table derived in the harness with hdkeychain",
                    "model parameter rb (does nextAddresses cache the read-back address before commit) = "
                    "Generated/AddrCache.next_caches_read_back, regenerated from waddrmgr/scoped_manager.go by lib/extract_c08.py; "
-                   "the theorems hold for both values"]
+                   "the theorems hold for both values",
+                   "three transcribed assumptions (indices only in the registered OnCommit closure; extend and rename update memory "
+                   "before commit, rename for both row kinds) are regenerated too and obliged to be true "
+                   "(C08_model_assumptions_hold_in_source); when the source shape is not recognised all four facts are determined by "
+                   "running the built code on their witness scenarios (harness/cmd/extract-c08); evidence field facts_source says "
+                   "which path ran"]
     PARTIAL_CLAUSES = ["the equivalence is proved for histories outside the trigger pattern K (in_K of coq/Addr/MemDisk.v); inside K it is "
                        "refuted by witnesses (C08_refuted_at_K) and the run reports the divergences as findings",
                        "'the next committed request issues the very address a restarted wallet would issue' is proved outside K_idx "
@@ -295,9 +300,22 @@ Print bad.
         # mismatch is never explained by a known finding
         return False
 
+    def facts_source(self):
+        # which path of lib/extract_c08.py produced the regenerated facts of this run
+        src, detail, facts = "unknown", "", {}
+        try:
+            txt = open(os.path.join(COQ, "Generated", "AddrCache.v")).read()
+            m = re.search(r"\(\* facts source: (\w+)(.*?)\*\)", txt, re.S)
+            if m:
+                src, detail = m.group(1), re.sub(r"\s+", " ", m.group(2)).strip()
+            facts = dict(re.findall(r"Definition (\w+) : bool := (true|false)\.", txt))
+        except OSError:
+            pass
+        return dict(facts_source=src, facts_source_detail=detail, regenerated_facts=facts)
+
     def extra_coverage(self, cases):
         k = sum(1 for c in cases if "in_K" in c.get("tags", []))
-        return dict(K="in_K rb (coq/Addr/MemDisk.v): an aborted transaction holding rename / set-synced-to / set-birthday / extend / import, "
+        return dict(self.facts_source(), K="in_K rb (coq/Addr/MemDisk.v): an aborted transaction holding rename / set-synced-to / set-birthday / extend / import, "
                       "or new-account followed by Address/LastAddress/AccountProperties, or next-addresses (rb=true: always; rb=false: when "
                       "followed by Address); a committed transaction holding extend after next-addresses on the same account and branch, "
                       "or SetSyncedTo(nil)",
